@@ -169,9 +169,19 @@ impl BaseGrid {
         let dlat = header[4].copysign(lat_s - lat_n);
         let dlon = header[5].copysign(lon_e - lon_w);
         let bands = header[6] as usize;
-        let rows = ((lat_s - lat_n) / dlat + 1.5).floor() as usize;
-        let cols = ((lon_e - lon_w) / dlon + 1.5).floor() as usize;
-        let elements = rows * cols * bands;
+        let rows = ((lat_s - lat_n) / dlat + 1.5).floor();
+        let cols = ((lon_e - lon_w) / dlon + 1.5).floor();
+
+        // Interpolation needs a finite geometry with at least 2 rows and 2 columns
+        // (NaN fails all comparisons, so it is rejected here as well)
+        let sane = 2.0..1e9;
+        if header[..6].iter().any(|h| !h.is_finite()) || !sane.contains(&rows) || !sane.contains(&cols) {
+            return Err(Error::General("Malformed grid"));
+        }
+        let (rows, cols) = (rows as usize, cols as usize);
+        let Some(elements) = (rows * cols).checked_mul(bands) else {
+            return Err(Error::General("Malformed grid"));
+        };
 
         let offset = offset.unwrap_or(0);
 
@@ -288,8 +298,14 @@ fn gravsoft_grid_reader(buf: &[u8]) -> Result<(Vec<f64>, Vec<f32>), Error> {
     // organization
     let dlat = header[4].copysign(lat_s - lat_n);
     let dlon = header[5].copysign(lon_e - lon_w);
-    let rows = ((lat_s - lat_n) / dlat + 1.5).floor() as usize;
-    let cols = ((lon_e - lon_w) / dlon + 1.5).floor() as usize;
+    let rows = ((lat_s - lat_n) / dlat + 1.5).floor();
+    let cols = ((lon_e - lon_w) / dlon + 1.5).floor();
+    // A damaged header may describe no grid at all, or an absurdly large one
+    let sane = 2.0..1e9;
+    if !sane.contains(&rows) || !sane.contains(&cols) {
+        return Err(Error::General("Malformed Gravsoft header"));
+    }
+    let (rows, cols) = (rows as usize, cols as usize);
     let bands = grid.len() / (rows * cols);
     if (rows * cols * bands) > grid.len() || bands < 1 {
         return Err(Error::General("Incomplete Gravsoft grid"));
